@@ -1,7 +1,7 @@
 #!/usr/bin/env python3
 """Regenerates MANIFEST.json from the table below (run after adding a check)."""
 import json, os, subprocess
-HOOK_COMMITS = ["b90bd7e", "6ee1992", "c78af28", "9917abb", "7a991b8", "bf9fb1e"]
+HOOK_COMMITS = ["b90bd7e", "6ee1992", "c78af28", "9917abb", "7a991b8", "bf9fb1e", "b78e961"]
 CHECKS = {
  "C01": dict(
    level=("proof", "Coq theorems for every register size n, target, ordered control/target pair, matrix and state: the blocked pair loop of "
@@ -107,13 +107,17 @@ CHECKS = {
    level=("proof", "Coq theorems (axiom-free) about a mark-and-sweep collector over the reference interpreter's heap with the interpreter's roots (running "
           "frame, suspended callers, pending operands, statics, in-flight return value): whenever marking completes every object reachable from a root is "
           "marked; a collection at any state leaves every reachable object exactly as it was, touches nothing but the heap, and whatever it clears was "
-          "unreachable. The interpreter itself has no tracing collector, so its output is schedule independent by construction. The implementation is tied "
+          "unreachable. A second model (Lang/GcPin.v) is the implementation's rule for objects whose release is observable (user destructor, qubits, @tracked "
+          "fields): the kept set, computed by iterating 'an object with a field referring into the set joins it', holds every object that reaches an "
+          "observable one, so what a sweep wipes reaches none and refers to nothing kept - for every heap graph. Hook H7 logs the heap graph, kept set and "
+          "swept set of every collection of the generated programs; the extracted iteration must give the same kept set and the swept set must be exactly "
+          "the unreached, unobservable objects outside the kept set's descendants. The interpreter itself has no tracing collector, so its output is schedule independent by construction. The implementation is tied "
           "to it through hook H4: each generated program (graphs held by variables, fields, statics, pending arguments, temporaries, return values; bursts "
           "of allocation at those points; garbage cycles) is run with no collection, a collection at every statement boundary, masked subsets and the "
           "default triggers; all outputs must coincide and equal the interpreter's. Race freedom and shutdown of the timer thread are observed with "
           "ThreadSanitizer on the unhooked build (sampled, not enumerated: partial).", "DESIGN.md §6 C11"),
-   note="Trusted: Coq kernel; extraction; glue; hook H4; TSan runtime. Not every subset of boundaries is enumerated (masks are periodic); thread interleavings are sampled.",
-   technique="Coq proof (work-list marking invariant) + schedule-forcing differential testing + ThreadSanitizer runs"),
+   note="Trusted: Coq kernel; extraction; glue; hooks H4 and H7; TSan runtime. Not every subset of boundaries is enumerated (masks are periodic); thread interleavings are sampled.",
+   technique="Coq proof (work-list marking invariant; closure of the kept-set iteration) + per-collection correspondence of the kept and swept sets + schedule-forcing differential testing + ThreadSanitizer runs"),
  "C12": dict(
    level=("proof", "Coq theorems (axiom-free) on the reference interpreter: int arithmetic of any two in-range operands yields an in-range int; long "
           "arithmetic yields an in-range long or is flagged as outside the documentation; x % -1 = 0 for every x including the most negative long; "
